@@ -171,6 +171,8 @@ class C12(Mon):
             self.pending = a[1]
         elif kind == "dev-fail" and getattr(a[0], "msg", None) is sc.plan.last_msg:
             self.pending = a[1]
+        elif kind == "dev-raise" and sc.plan.last_msg is not None and sc.plan.last_msg.obj is a[0] and not sc.plan.done:
+            self.pending = a[1]              # a real handler (_set ...) calling a device method that raises
         elif kind == "outcome-lost" and a[0] is sc.plan.last_msg and a[1][0] == "throw":
             self.lost_inflight = True       # the error reached the future, but the waiting handler was cancelled before it woke up
         elif kind == "plan-yield" and a[0] is sc.plan:
@@ -229,6 +231,8 @@ class C13(Mon):
             self.responses += (a[1],)
         elif kind == "dev-complete" and getattr(a[0], "msg", None) is cur:
             self.responses += (a[1],)
+        elif kind == "dev-result" and cur is not None and cur.obj is a[0]:
+            self.responses += (a[1],)        # what the device's method returned to the real handler (the status of a 'set')
         elif kind in ("handler-cancelled", "outcome-lost") and a[0] is cur:
             self.inflight_cancelled = True
         elif kind == "open_run":
@@ -240,7 +244,7 @@ class C13(Mon):
         elif kind == "plan-send" and a[0] is sc.plan and cur is not None:
             v = a[1]
             name = f"{REQ}._run#ensures[the value sent into the plan at a yield is the engine's response to the message yielded there]"
-            if cur.command in ("custom", "custom_async", "open_run", "close_run"):
+            if cur.command in ("custom", "custom_async", "open_run", "close_run") or (cur.command == "set" and getattr(cur.obj, "name", "") == "fmot"):
                 ok = any(v is r for r in self.responses)
                 w.check_kf(name, ok, KF_C13, self.inflight_cancelled and cur.command == "custom_async" and v is None,
                            dict(info, message=cur.command, got=repr(v), produced=[repr(r) for r in self.responses]))
